@@ -25,7 +25,7 @@ from . import _dsl
 LEVEL = "model_checking"
 MANIFEST = {
     "technique": "TLA+ spec BatchDsl checked exhaustively by TLC; TLC-enumerated pipelines (exhaustive small bounds + simulation) built with the real hailtop.batch API and run on the real LocalBackend; every execution validated by TLC as a behaviour of the spec (trace validation, B2) with the C17 invariants evaluated at each step",
-    "text": "All pipelines of up to 3 jobs (thorough: all; quick: bounded number of edges) with explicit and resource-induced dependencies, self loops and cycles, always_run flags and every set of failing commands are explored by TLC on the specification; the pipelines TLC enumerates (and random larger ones of up to 5 jobs) are executed by the real code and each recorded numbering / execution / skip sequence is accepted by TLC only if it is a behaviour of the specification satisfying: numbering topological, cyclic <=> rejected with nothing run, skipped set = least fixpoint.",
+    "text": "TLC explores on the specification all pipelines of 3 jobs in canonical call order with <= 2 (quick) / <= 3 (thorough) dependency edges - explicit, resource-induced, self loops, cycles, forward and backward in creation order - with every always_run assignment and every outcome of every command, and (thorough) all 3-job programs with freely interleaved calls (1.3M states). The same enumerated programs, plus TLC-simulated 4- and 5-job programs, are built with the real API; Batch._async_run's numbering / cycle rejection is recorded for every one and LocalBackend executes one program per (dependency sets, always_run) class with several / all sets of failing commands. TLC accepts a recorded execution only as a behaviour of the specification with: numbering topological over explicit + resource edges, cyclic <=> rejected with nothing run, every job resolved after its parents, skipped set = least fixpoint.",
     "note": "Trusts TLC; the marker-file observation of which job ran (a skipped job is placed at its position in the numbered list); /bin/sh + bash exit codes. Job._dependencies after each DSL call is compared with the spec (internal attribute). PythonJob and docker images are not exercised. The numbering is held to 'some permutation' and judged by the invariants, not to the depth first order the spec models.",
     "design_ref": "DESIGN.md section 5, C17 / C18",
 }
@@ -56,7 +56,7 @@ def spec_check(ctx, wd):
         ctx.add_tlc(res, f"exhaustive BatchDsl, free interleaving (local backend): {what}")
         ctx.require_covered(res, ACTIONS, "BatchDsl")
         for v in res.violations:
-            ctx.violation(f"spec:{v.name}", {"config": c, "trace": [(h, s) for h, s in v.trace][-6:]})
+            ctx.violation(f"spec:{v.name}", {"config": c, "trace": [(h, str(tlc.tlaval.to_py(s))[:1500]) for h, s in v.trace][-6:]})
 
 
 def fail_sets(n, rng, limit):
@@ -102,7 +102,7 @@ def run(ctx):
         if not sim:
             ctx.require_covered(res, GEN_ACTIONS, "BatchDslGen")
         for v in res.violations:
-            ctx.violation(f"spec:{v.name}", {"config": {**c, **g}, "trace": [(h, s) for h, s in v.trace][-6:]})
+            ctx.violation(f"spec:{v.name}", {"config": {**c, **g}, "trace": [(h, str(tlc.tlaval.to_py(s))[:1500]) for h, s in v.trace][-6:]})
         if not progs:
             raise RuntimeError(f"no programs generated for {name}")
         nprog[name] = len(progs)
